@@ -59,10 +59,10 @@ inline json PolysJson(const Polygons& ps, size_t maxVerts = 64) {
 // Winding numbers of many sample points w.r.t. closed polygons by crossing
 // counting (ray towards +x, half-open rule in y).  Sample points are grouped by
 // their y so that every row looks at the edges straddling it only.  The side of
-// a point relative to an edge is decided by a cross product in long double; a
-// value too close to zero to be trusted is reported (`uncertain`), never
-// guessed.  Sample points used by the checks are >= 0.2 away from every lattice
-// line, input edges are lattice / half-lattice, so this does not happen there.
+// a point relative to an edge is decided by a cross product in long double with
+// a relative forward error bound; a value that cannot be trusted is reported
+// (`uncertain`), never guessed.  Sample points used by the checks are >= 0.01
+// away from every lattice / half-lattice line, so this does not happen there.
 struct Sample {
   double x, y;
   int tag;  // caller's id
@@ -95,10 +95,12 @@ inline WindingResult Windings(const Polygons& ps, const std::vector<Sample>& pts
       const double x = pts[idx].x;
       int w = 0;
       for (auto& e : strad) {
-        const long double cr = ((long double)e.b.x - e.a.x) * ((long double)y - e.a.y) -
-                               ((long double)e.b.y - e.a.y) * ((long double)x - e.a.x);
-        const long double scale = std::fabs((long double)e.b.x - e.a.x) + std::fabs((long double)e.b.y - e.a.y) + 1;
-        if (std::fabs(cr) < 1e-9L * scale) {
+        // sign of (b-a) x (p-a) in long double with a forward error bound: the differences are exact or
+        // correctly rounded, each product and the final subtraction add a relative 2^-64
+        const long double dx = (long double)e.b.x - e.a.x, dy = (long double)e.b.y - e.a.y;
+        const long double px = (long double)x - e.a.x, py = (long double)y - e.a.y;
+        const long double cr = dx * py - dy * px;
+        if (std::fabs(cr) <= 1e-17L * (std::fabs(dx * py) + std::fabs(dy * px))) {
           R.uncertain++;
           continue;
         }
@@ -113,25 +115,55 @@ inline WindingResult Windings(const Polygons& ps, const std::vector<Sample>& pts
 }
 
 // ---------- exact segment predicates -----------------------------------------
-// Coordinates are scaled by 2^kScaleBits and must then be integers below 2^62
-// in magnitude (true for every lattice / half-lattice / 1-ulp-perturbed output
-// with |x| < 2^10): all cross products fit __int128 exactly.
+// All coordinates of a polygon set are scaled by one power of two 2^k chosen so that every one becomes
+// an integer (doubles are dyadic rationals; k = 0 for lattice output, 1 for half-lattice, ~53 for a
+// rounded crossing point near 1).  When the scaled magnitudes stay below 2^57 every cross product fits
+// __int128 exactly; otherwise (e.g. a coordinate like 8e-15 next to coordinates near 1) the set is
+// `inexact` and only the certain part of the predicates is decided (RegularizedFloat).
 typedef __int128 I128;
-constexpr int kScaleBits = 52;
 struct IPt {
   int64_t x, y;
   bool operator==(const IPt& o) const { return x == o.x && y == o.y; }
 };
-inline bool ToGrid(double v, int64_t& out) {
-  if (!std::isfinite(v) || std::fabs(v) >= 1024.0) return false;
-  const double s = std::ldexp(v, kScaleBits);
-  if (s != std::nearbyint(s)) return false;
-  out = (int64_t)s;
-  return true;
+// smallest k >= 0 with v * 2^k integral; -1 if v is not finite
+inline int DyadicBits(double v) {
+  if (!std::isfinite(v)) return -1;
+  if (v == 0) return 0;
+  int e;
+  const double m = std::frexp(std::fabs(v), &e);          // v = m * 2^e, m in [0.5,1)
+  uint64_t M = (uint64_t)std::ldexp(m, 53);                 // 53-bit integer mantissa
+  int tz = 0;
+  while ((M & 1) == 0) {
+    M >>= 1;
+    tz++;
+  }
+  const int k = 53 - e - tz;                                // v = M * 2^(-k)
+  return k < 0 ? 0 : k;
 }
+struct Grid {
+  int k = 0;
+  bool ok = true;
+};
+inline Grid GridOf(const Polygons& ps) {
+  Grid g;
+  double mx = 0;
+  for (auto& p : ps)
+    for (auto& v : p) {
+      const int kx = DyadicBits(v.x), ky = DyadicBits(v.y);
+      if (kx < 0 || ky < 0) {
+        g.ok = false;
+        return g;
+      }
+      g.k = std::max(g.k, std::max(kx, ky));
+      mx = std::max(mx, std::max(std::fabs(v.x), std::fabs(v.y)));
+    }
+  if (g.k > 200 || std::ldexp(mx, g.k) >= std::ldexp(1.0, 57)) g.ok = false;
+  return g;
+}
+inline int64_t OnGrid(double v, const Grid& g) { return (int64_t)std::ldexp(v, g.k); }
 inline int Sgn(I128 v) { return v > 0 ? 1 : (v < 0 ? -1 : 0); }
 inline int Orient(const IPt& a, const IPt& b, const IPt& c) {
-  return Sgn((I128)(b.x - a.x) * (I128)(c.y - a.y) - (I128)(b.y - a.y) * (I128)(c.x - a.x));
+  return Sgn(((I128)b.x - a.x) * ((I128)c.y - a.y) - ((I128)b.y - a.y) * ((I128)c.x - a.x));
 }
 inline bool InBox(const IPt& a, const IPt& b, const IPt& p) {
   return std::min(a.x, b.x) <= p.x && p.x <= std::max(a.x, b.x) && std::min(a.y, b.y) <= p.y &&
@@ -158,6 +190,22 @@ inline Meet SegMeet(const IPt& a, const IPt& b, const IPt& c, const IPt& d) {
   return Meet::None;
 }
 
+// Is direction d strictly inside the sector swept counter-clockwise from
+// direction u to direction w (all relative to a common apex)?  +1 inside, -1
+// strictly outside, 0 on the boundary or undecidable (u and w the same ray).
+inline int InCcwSector(const IPt& apex, const IPt& u, const IPt& w, const IPt& d) {
+  const int uw = Orient(apex, u, w), ud = Orient(apex, u, d), dw = Orient(apex, d, w);
+  auto dot = [&](const IPt& p, const IPt& q) {
+    return Sgn(((I128)p.x - apex.x) * ((I128)q.x - apex.x) + ((I128)p.y - apex.y) * ((I128)q.y - apex.y));
+  };
+  const bool onU = ud == 0 && dot(u, d) > 0, onW = dw == 0 && dot(w, d) > 0;
+  if (onU || onW) return 0;
+  if (uw > 0) return (ud > 0 && dw > 0) ? 1 : -1;
+  if (uw < 0) return (ud < 0 && dw < 0) ? -1 : 1;  // reflex sector: outside = inside the convex sector w -> u
+  if (dot(u, w) < 0) return ud > 0 ? 1 : -1;       // straight angle
+  return 0;                                         // u and w are the same ray (spike)
+}
+
 // The `Regularized` predicate of C11 on an output polygon set, exact:
 //   every ring has >= 3 vertices, no zero-length edge and non-zero area;
 //   ring simple: adjacent edges meet only in their common vertex (no
@@ -165,13 +213,70 @@ inline Meet SegMeet(const IPt& a, const IPt& b, const IPt& c, const IPt& d) {
 //   different rings do not cross and do not overlap along a segment
 //   (point contacts between different rings are allowed and counted).
 // Returns "" or the first violated clause; `inexact` is set when a coordinate
-// is not on the 2^-52 grid (then nothing is decided).
+// set has no common exact grid (then only the certain part is decided: RegularizedFloat).
 struct RegularReport {
   std::string why;
   json where;
   bool inexact = false;
   int touches = 0;  // point contacts between different rings (allowed)
 };
+// Fallback for outputs whose coordinates are not on the exact grid (inputs displaced by --jitter):
+// orientation signs in long double with a forward error bound; only what is CERTAIN is reported:
+// rings with < 3 vertices, exactly repeated consecutive vertices, and proper crossings (all four
+// orientation signs certain and strictly opposite).  Point contacts / overlaps are not decided.
+inline int OrientLD(vec2 a, vec2 b, vec2 c) {
+  const long double dx = (long double)b.x - a.x, dy = (long double)b.y - a.y;
+  const long double px = (long double)c.x - a.x, py = (long double)c.y - a.y;
+  const long double cr = dx * py - dy * px;
+  if (std::fabs(cr) <= 1e-17L * (std::fabs(dx * py) + std::fabs(dy * px))) return 0;
+  return cr > 0 ? 1 : -1;
+}
+inline void RegularizedFloat(const Polygons& ps, std::string& why, json& where) {
+  struct Edge {
+    vec2 a, b;
+    int ring, idx, n;
+  };
+  std::vector<Edge> edges;
+  for (size_t r = 0; r < ps.size(); r++) {
+    const size_t n = ps[r].size();
+    if (n < 3) {
+      why = "ring with fewer than 3 vertices";
+      where = {{"ring", r}};
+      return;
+    }
+    for (size_t i = 0; i < n; i++) {
+      const vec2 a = ps[r][i], b = ps[r][(i + 1) % n];
+      if (a.x == b.x && a.y == b.y) {
+        why = "zero-length edge";
+        where = {{"ring", r}, {"vertex", i}};
+        return;
+      }
+      edges.push_back({a, b, (int)r, (int)i, (int)n});
+    }
+  }
+  std::vector<size_t> order(edges.size());
+  for (size_t i = 0; i < order.size(); i++) order[i] = i;
+  auto minx = [&](size_t i) { return std::min(edges[i].a.x, edges[i].b.x); };
+  auto maxx = [&](size_t i) { return std::max(edges[i].a.x, edges[i].b.x); };
+  std::sort(order.begin(), order.end(), [&](size_t p, size_t q) { return minx(p) < minx(q); });
+  for (size_t oi = 0; oi < order.size(); oi++) {
+    const Edge& e = edges[order[oi]];
+    const double ex = maxx(order[oi]);
+    for (size_t oj = oi + 1; oj < order.size() && minx(order[oj]) <= ex; oj++) {
+      const Edge& f = edges[order[oj]];
+      if (std::max(e.a.y, e.b.y) < std::min(f.a.y, f.b.y) || std::max(f.a.y, f.b.y) < std::min(e.a.y, e.b.y))
+        continue;
+      const int o1 = OrientLD(e.a, e.b, f.a), o2 = OrientLD(e.a, e.b, f.b);
+      const int o3 = OrientLD(f.a, f.b, e.a), o4 = OrientLD(f.a, f.b, e.b);
+      if (o1 * o2 < 0 && o3 * o4 < 0) {
+        why = e.ring == f.ring ? "ring crosses itself" : "two contours cross";
+        where = {{"ringA", e.ring}, {"edgeA", e.idx}, {"ringB", f.ring}, {"edgeB", f.idx}, {"approx", true}};
+        return;
+      }
+    }
+  }
+}
+
 inline RegularReport Regularized(const Polygons& ps) {
   RegularReport R;
   struct Edge {
@@ -179,6 +284,13 @@ inline RegularReport Regularized(const Polygons& ps) {
     int ring, idx, n;
   };
   std::vector<Edge> edges;
+  std::vector<std::vector<IPt>> rings(ps.size());
+  const Grid grid = GridOf(ps);
+  if (!grid.ok) {
+    R.inexact = true;
+    RegularizedFloat(ps, R.why, R.where);
+    return R;
+  }
   for (size_t r = 0; r < ps.size(); r++) {
     const size_t n = ps[r].size();
     if (n < 3) {
@@ -187,11 +299,7 @@ inline RegularReport Regularized(const Polygons& ps) {
       return R;
     }
     std::vector<IPt> v(n);
-    for (size_t i = 0; i < n; i++)
-      if (!ToGrid(ps[r][i].x, v[i].x) || !ToGrid(ps[r][i].y, v[i].y)) {
-        R.inexact = true;
-        return R;
-      }
+    for (size_t i = 0; i < n; i++) v[i] = {OnGrid(ps[r][i].x, grid), OnGrid(ps[r][i].y, grid)};
     I128 area2 = 0;
     for (size_t i = 0; i < n; i++) {
       const IPt &a = v[i], &b = v[(i + 1) % n];
@@ -200,7 +308,7 @@ inline RegularReport Regularized(const Polygons& ps) {
         R.where = {{"ring", r}, {"vertex", i}};
         return R;
       }
-      area2 += (I128)(a.x - v[0].x) * (I128)(b.y - v[0].y) - (I128)(a.y - v[0].y) * (I128)(b.x - v[0].x);
+      area2 += ((I128)a.x - v[0].x) * ((I128)b.y - v[0].y) - ((I128)a.y - v[0].y) * ((I128)b.x - v[0].x);
       edges.push_back({a, b, (int)r, (int)i, (int)n});
     }
     if (area2 == 0) {
@@ -208,6 +316,7 @@ inline RegularReport Regularized(const Polygons& ps) {
       R.where = {{"ring", r}};
       return R;
     }
+    rings[r] = v;
   }
   // sweep over x-sorted edge boxes to avoid the full quadratic pair loop
   std::vector<size_t> order(edges.size());
@@ -252,6 +361,19 @@ inline RegularReport Regularized(const Polygons& ps) {
         return R;
       }
       R.touches++;
+      // a point contact between two rings: do they cross THROUGH a shared vertex?  (the head vertices of
+      // both edges coincide: every shared vertex is the head of exactly one edge of each ring)
+      if (e.b == f.b) {
+        const std::vector<IPt>&A = rings[e.ring], &B = rings[f.ring];
+        const IPt &v = e.b, &a0 = e.a, &a1 = A[(e.idx + 2) % e.n], &b0 = f.a, &b1 = B[(f.idx + 2) % f.n];
+        // left side of ring A at v = sector counter-clockwise from (v->a1) to (v->a0)
+        const int s0 = InCcwSector(v, a1, a0, b0), s1 = InCcwSector(v, a1, a0, b1);
+        if (s0 * s1 < 0) {
+          R.why = "two contours cross through a shared vertex";
+          R.where = wh;
+          return R;
+        }
+      }
     }
   }
   return R;
@@ -280,6 +402,10 @@ inline CrossSection ApplyGen(const CrossSection& c, const std::string& g) {
   if (g == "TYP") return c.Translate({0, 1});
   if (g == "TYM") return c.Translate({0, -1});
   if (g == "TPM") return c.Transform(mat2x3({1, 0}, {0, 1}, {1, -1}));
+  if (g == "REPOS") return CrossSection(c.ToPolygons());
+  if (g == "REEO") return CrossSection::EvenOdd(c.ToPolygons());
+  if (g == "WARPID") return c.Warp([](vec2&) {});
+  if (g == "WARPX") return c.Warp([](vec2& v) { v.x += 1; });
   fprintf(stderr, "unknown 2-D generator %s\n", g.c_str());
   exit(2);
 }
